@@ -433,7 +433,65 @@ func corpus(out *gal.Out) {
 		{Op: "With", Ctx: 0, Fields: []uint64{6}}, {Op: "With", Ctx: 0, Fields: []uint64{7}}})
 }
 
-// ---------- free-running stress (thorough tier, built with -race) ----------
+// suspectOnly (-suspect): the stress run writes only final states that look like a lost field or
+// a lost level (at most 12); the verdict is Coq's (sc_judge / final_ok).
+var suspectOnly bool
+
+// suspicious mirrors final_ok of LogCtxJudge.v.
+func suspicious(in globalSpec, progs [][]cop, fin cobs) bool {
+	if fin.Full != nil {
+		return true
+	}
+	want := map[uint64]int{}
+	nadd := 0
+	var lasts []int
+	for _, p := range progs {
+		last, has := 0, false
+		for _, o := range p {
+			if o.Op == "With" {
+				for _, f := range o.Fields {
+					want[f]++
+					nadd++
+				}
+			} else {
+				last, has = o.Level, true
+			}
+		}
+		if has {
+			lasts = append(lasts, last)
+		}
+	}
+	if len(lasts) == 0 {
+		l := in.Level
+		if in.Wrap != nil {
+			l = *in.Wrap
+		}
+		lasts = []int{l}
+	}
+	if len(fin.Fields) != len(in.Fields)+nadd || !same(fin.Fields[:len(in.Fields)], in.Fields) {
+		return true
+	}
+	for _, f := range fin.Fields[len(in.Fields):] {
+		want[f]--
+		if want[f] < 0 {
+			return true
+		}
+	}
+	for _, l := range lasts {
+		var m uint64
+		for i := range levels {
+			if i-1 >= l {
+				m |= 1 << uint(i)
+			}
+		}
+		if m == fin.Mask {
+			return false
+		}
+	}
+	return true
+}
+
+// ---------- free-running stress (thorough tier built with -race; short run as a last resort) ----------
 func stress(out *gal.Out, g *gen, n int) {
 	if runtime.GOMAXPROCS(0) < 4 {
 		runtime.GOMAXPROCS(4)
@@ -485,6 +543,11 @@ func stress(out *gal.Out, g *gen, n int) {
 		close(start)
 		wg.Wait()
 		fin := probe(base, logs)
+		if suspectOnly {
+			if !suspicious(gs, progs, fin) || out.N >= 12 {
+				continue
+			}
+		}
 		t := "({| sc_init := " + gCore(gs) + "; sc_progs := " +
 			gal.ListOf(progs, func(p []cop) string { return gal.ListOf(p, gCop) }) +
 			"; sc_final := " + gObs(fin) + " |})%N"
@@ -499,7 +562,9 @@ func main() {
 	n := flag.Int("n", 100, "number of cases")
 	maxLen := flag.Int("maxlen", 25, "maximal sequence length")
 	in := flag.String("in", "", "replay: file with one {glob, ops} JSON object per line")
+	suspect := flag.Bool("suspect", false, "stress: write only final states that look like a lost update")
 	flag.Parse()
+	suspectOnly = *suspect
 	out := gal.NewOut(*outp)
 	defer out.Close()
 	g := &gen{r: gal.NewRand(*seed), next: 1}
